@@ -190,6 +190,8 @@ pub fn run_cases(
 ) -> Stats {
     let total = Mutex::new(Stats::default());
     let cases = &cases;
+    let journal = std::env::var("VERIF_JOURNAL").ok();
+    let journal = &journal;
     std::thread::scope(|scope| {
         for w in 0..threads {
             let total = &total;
@@ -201,8 +203,8 @@ pub fn run_cases(
                     let mut i = w;
                     while i < cases.len() {
                         let case = &cases[i];
-                        if std::env::var("VERIF_TRACE_CASES").is_ok() {
-                            std::fs::write(format!("/tmp/apverif-last-case-{w}.txt"), &case.src).ok();
+                        if let Some(dir) = &journal {
+                            write_journal(dir, w, case);
                         }
                         let out = evaluate(&mut d, case);
                         st.evaluations += 1;
@@ -307,31 +309,42 @@ pub fn shrink(src: &str, still_fails: &dyn Fn(&str) -> bool) -> String {
     cur
 }
 
+fn case_fields(o: &mut Obj, case: &Case) {
+    o.s("kind", &format!("{:?}", case.kind))
+        .s("source", &case.src)
+        .s("source_hex", &hex(case.src.as_bytes()))
+        .s("path", &case.path)
+        .s("aux", &case.aux)
+        .s("path_hex", &hex(case.path.as_bytes()))
+        .s("stdin_hex", &hex(case.stdin.as_bytes()))
+        .s("rng", &case.rng.iter().map(|x| x.to_string()).collect::<Vec<_>>().join(","))
+        .n("fuel", case.fuel)
+        .s("tags", &case.tags.join(","))
+        .s("files_hex", &case.files.iter().map(|(p, c)| match c { Some(c) => format!("{}=f{}", hex(p.as_bytes()), hex(c.as_bytes())), None => format!("{}=d", hex(p.as_bytes())) }).collect::<Vec<_>>().join(","));
+    let files: Vec<String> = case.files.iter().map(|(p, c)| format!("[{},{}]", json_str(p), c.as_ref().map(|c| json_str(c)).unwrap_or("null".into()))).collect();
+    o.raw("files", format!("[{}]", files.join(",")));
+}
+
+/// the case a worker is about to evaluate, in replay-file form (crash isolation: see `check`)
+pub fn write_journal(dir: &str, w: usize, case: &Case) {
+    let mut o = Obj::new();
+    o.s("what", "implementation-abort");
+    case_fields(&mut o, case);
+    std::fs::write(format!("{dir}/w{w}.json"), o.build()).ok();
+}
+
 pub fn write_replay(dir: &str, prop: &str, f: &Failure, seed: u64) -> String {
     std::fs::create_dir_all(dir).ok();
     let id = fnv(&format!("{:?}{}{}", f.case.kind, f.case.src, f.case.aux));
     let path = format!("{dir}/{prop}-{:016x}.json", id);
     let mut o = Obj::new();
-    o.s("property", prop)
-        .s("what", &f.what)
-        .s("kind", &format!("{:?}", f.case.kind))
-        .s("source", &f.case.src)
-        .s("source_hex", &hex(f.case.src.as_bytes()))
-        .s("path", &f.case.path)
-        .s("aux", &f.case.aux)
-        .s("path_hex", &hex(f.case.path.as_bytes()))
-        .s("stdin_hex", &hex(f.case.stdin.as_bytes()))
-        .s("rng", &f.case.rng.iter().map(|x| x.to_string()).collect::<Vec<_>>().join(","))
-        .n("fuel", f.case.fuel)
-        .s("tags", &f.case.tags.join(","))
-        .s("files_hex", &f.case.files.iter().map(|(p, c)| match c { Some(c) => format!("{}=f{}", hex(p.as_bytes()), hex(c.as_bytes())), None => format!("{}=d", hex(p.as_bytes())) }).collect::<Vec<_>>().join(","))
-        .s("implementation", &f.impl_rec)
+    o.s("property", prop).s("what", &f.what);
+    case_fields(&mut o, &f.case);
+    o.s("implementation", &f.impl_rec)
         .s("model", &f.model_rec)
         .s("detail", &f.detail)
         .n("seed", seed)
         .s("replay_cmd", &format!("./check --replay {path}"));
-    let files: Vec<String> = f.case.files.iter().map(|(p, c)| format!("[{},{}]", json_str(p), c.as_ref().map(|c| json_str(c)).unwrap_or("null".into()))).collect();
-    o.raw("files", format!("[{}]", files.join(",")));
     std::fs::write(&path, o.build()).unwrap();
     path
 }
